@@ -3,6 +3,7 @@
 //@harness fixlen_items_total | bounded(buffer<=6 bytes) | decode_fixlen_items<(),u16>: for EVERY usize length and every start position: Err(LengthPrefixTooBig) iff pos+length overflows or passes the end, no panic/overflow; on Ok exactly `length` bytes consumed and length/2 items returned
 //@harness u8_u16_u32_items_total | bounded(buffer<=6 bytes) | decode_u8_items/decode_u16_items/decode_u32_items<(),u8>: every prefix value and truncation returns Ok or Err, never panics; Ok => items == the prefixed bytes
 //@harness items_encode_roundtrip | bounded(items<=2) | encode_u8_items/encode_u16_items/encode_u32_items: prefix == number of item bytes; decode(encode(items)) == items; encoded form canonical
+//@harness items_encode_prefix_overflow | bounded(u8-prefixed vectors of 32-byte items: 7 and 8 items) | encode_u8_items: the length prefix counts BYTES, not items: 7 items of 32 bytes => Ok with prefix 224 == bytes produced; 8 items (256 bytes, only 8 items) => Err(LengthPrefixOverflow), never a truncated prefix
 //@harness fixlen_zero_width_item | bounded(unwind 6) | decode_fixlen_items with a zero-width item type terminates (progress: each item consumes >= 1 byte is a precondition on D; `()` violates it)
 #[cfg(kani)]
 #[allow(dead_code)]
@@ -190,5 +191,32 @@ pub(crate) mod verif_c07 {
         // `()` does not meet it: the loop `while sub.position() < length` makes no progress.
         let r: Result<Vec<()>, CodecError> = decode_fixlen_items(1, &(), &mut c);
         forget(r);
+    }
+
+    #[kani::proof]
+    #[kani::unwind(40)]
+    fn items_encode_prefix_overflow() {
+        use crate::vdaf::xof::Seed;
+        let over: bool = kani::any();
+        let b: [u8; 32] = kani::any();
+        let mut out = Vec::with_capacity(300);
+        let e = if over {
+            let items: [Seed<32>; 8] = core::array::from_fn(|_| Seed::from_bytes(b));
+            encode_u8_items(&mut out, &(), &items[..])
+        } else {
+            let items: [Seed<32>; 7] = core::array::from_fn(|_| Seed::from_bytes(b));
+            encode_u8_items(&mut out, &(), &items[..])
+        };
+        if over {
+            assert!(matches!(e, Err(CodecError::LengthPrefixOverflow)));
+        } else {
+            assert!(e.is_ok() && out.len() == 1 + 224 && out[0] == 224);
+            let i: usize = kani::any();
+            kani::assume(i < 224);
+            assert!(out[1 + i] == b[i % 32]);
+        }
+        kani::cover!(over);
+        kani::cover!(!over);
+        forget(e); forget(out);
     }
 }
